@@ -101,6 +101,29 @@ class C03(Property):
         "apply_cluster_rules", "find_protoclusters", "_extend_area_location", "apply_extenders",
         "remove_redundant_protoclusters", "merge_over_origin", "strip_inferior_domains", "build_results",
         "detect_protoclusters_and_signatures", "find_dynamic_hits")] + [
+        ("antismash/common/hmm_rule_parser/cluster_prediction.py", "Ruleset.__post_init__"),
+        ("antismash/common/hmm_rule_parser/cluster_prediction.py", "RuleDetectionResults.protoclusters"),
+        ("antismash/common/hmm_rule_parser/cluster_prediction.py", "CDSResults.__init__"),
+        ("antismash/common/hmm_rule_parser/rule_parser.py", "Parser._parse_rule"),
+        ("antismash/common/hmm_rule_parser/rule_parser.py", "Parser._parse_superiors"),
+        ("antismash/common/hmm_rule_parser/rule_parser.py", "Parser.__init__"),
+        ("antismash/common/hmm_rule_parser/rule_parser.py", "DetectionRule.__init__"),
+        ("antismash/common/hmm_rule_parser/rule_parser.py", "Details.__init__"),
+        ("antismash/common/hmm_rule_parser/rule_parser.py", "Details.in_range"),
+        ("antismash/common/hmm_rule_parser/rule_parser.py", "Conditions.get_satisfied"),
+        ("antismash/common/hmm_rule_parser/rule_parser.py", "Conditions.is_satisfied"),
+        ("antismash/common/hmm_rule_parser/rule_parser.py", "Conditions.are_subconditions_satisfied"),
+        ("antismash/common/hmm_rule_parser/rule_parser.py", "AndCondition.is_satisfied"),
+        ("antismash/common/hmm_rule_parser/rule_parser.py", "SingleCondition.is_satisfied"),
+        ("antismash/common/hmm_rule_parser/rule_parser.py", "CDSCondition.is_satisfied"),
+        ("antismash/common/hmm_rule_parser/rule_parser.py", "MinimumCondition.is_satisfied"),
+        ("antismash/common/hmm_rule_parser/rule_parser.py", "ConditionMet.__bool__"),
+        ("antismash/common/secmet/features/feature.py", "Feature.__init__"),
+        ("antismash/common/secmet/features/feature.py", "Feature.overlaps_with"),
+        ("antismash/common/secmet/features/feature.py", "Feature.is_contained_by"),
+        ("antismash/common/secmet/locations.py", "location_contains_overlapping_exons"),
+        ("antismash/common/secmet/record.py", "Record.get_distance_between_features"),
+        ("antismash/common/secmet/record.py", "Record.is_circular"),
         ("antismash/common/hmm_rule_parser/rule_parser.py", "DetectionRule.detect"),
         ("antismash/common/hmm_rule_parser/rule_parser.py", "DetectionRule.can_extend_to"),
         ("antismash/common/secmet/features/protocluster.py", "Protocluster.__init__"),
@@ -135,7 +158,9 @@ class C03(Property):
                "HMMER hit production (find_hmmer_hits, filter_results*) is not exercised: hits come from dynamic profiles",
                "Protocluster/CDSCollection constructor checks are modelled as the errors they raise; SecMetQualifier annotation is not observed",
                "the order of `record.get_cds_features()` (bisect insertion by Feature.__lt__) is an input of the model",
-               "Python set/dict iteration order is not observable in the canonicalised outputs"]
+               "Python set/dict iteration order is not observable in the canonicalised outputs",
+               "about 30 % of the cases that can be written as rule text go through the real Parser and Ruleset multipliers "
+               "(tag rules-via-text+multipliers); the model receives the distances / superiors the case declares"]
 
     # ------------------------------------------------------------------ generators
     PROFS = ["a", "b", "c", "x"]
@@ -254,11 +279,12 @@ class C03(Property):
         length, circular, genes = self.rand_layout(rng, cutoffs, unit)
         self.assign_hits(rng, genes)
         rules = self.rand_rules(rng, cutoffs, nbhds)
-        return {"len": length, "circ": circular, "genes": genes, "rules": rules}
+        return {"len": length, "circ": circular, "genes": genes, "rules": rules, "text": rng.random() < 0.3}
 
     def targeted_case(self, rng: random.Random) -> Dict[str, Any]:
         """structured scenarios around the mechanisms of the property, with random sizes"""
-        kind = rng.choice(["ancillary-only", "multi-cutoff-origin", "chain-through-origin", "superior-cover", "extender-walk"])
+        kind = rng.choice(["ancillary-only", "multi-cutoff-origin", "chain-through-origin", "superior-cover",
+                           "superior-cover-origin", "extender-walk"])
         c = rng.choice([3, 5, 20, 1000])
         gl = rng.choice([1, 2, c // 2 + 1])
         nb = rng.choice([0, 1, c, 3 * c])
@@ -343,6 +369,52 @@ class C03(Property):
                      {"name": "inf", "cutoff": c, "nbhd": rng.choice([nb, 0]), "cond": A("i"), "sup": ["sup"], "ext": None}]
             if rng.random() < 0.3:
                 rules.reverse()
+        elif kind == "superior-cover-origin":
+            # a superior chain that crosses the origin of a ring (genes chained over it and / or an origin-spanning
+            # gene) and an inferior chain inside it: before the origin, after it, or over it as well; or merely
+            # overlapping / next to it
+            c = max(c, 3)
+            length = rng.choice([20 * c, 9 * c + 1, 40 * c]) + 6 * gl
+            before = [length - (i + 1) * (gl + rng.choice([0, 1, c - 1])) - rng.choice([0, 1, c // 2]) for i in range(rng.choice([1, 2]))]
+            after = [rng.choice([0, 1, c // 2]) + i * (gl + rng.choice([0, 1, c - 1])) for i in range(rng.choice([1, 2]))]
+            sup_genes = [gene(max(lo, length // 2 + 1), "s", rng.choice([1, -1])) for lo in before] + \
+                        [gene(lo, "s", rng.choice([1, -1])) for lo in after]
+            span = None
+            if rng.random() < 0.4:
+                up, down = rng.choice([1, 2, gl]), rng.choice([1, 2, gl])
+                span = {"loc": origin_gene(rng, length, up, down, rng.choice([1, -1])), "hits": [["s", 0]], "hasres": True}
+                sup_genes = [g for g in sup_genes if down <= g["loc"]["parts"][0][0] and g["loc"]["parts"][0][1] <= length - up]
+                sup_genes.append(span)
+            mode = rng.choice(["inside-after", "inside-before", "inside-both", "all", "overlap", "apart", "own-gene-inside"])
+            genes = list(sup_genes)
+            simple_sup = [g for g in sup_genes if not g["loc"]["c"]]
+            lo_side = [g for g in simple_sup if g["loc"]["parts"][0][0] < length // 2]
+            hi_side = [g for g in simple_sup if g["loc"]["parts"][0][0] >= length // 2]
+            if mode == "inside-after" and lo_side:
+                rng.choice(lo_side)["hits"].append(["i", 0])
+            elif mode == "inside-before" and hi_side:
+                rng.choice(hi_side)["hits"].append(["i", 0])
+            elif mode == "inside-both" and lo_side and hi_side:
+                lo_side[0]["hits"].append(["i", 0])
+                hi_side[0]["hits"].append(["i", 0])
+            elif mode == "all":
+                for g in sup_genes:
+                    g["hits"].append(["i", 0])
+            elif mode == "overlap" and lo_side:
+                lo_side[-1]["hits"].append(["i", 0])
+                genes.append(gene(max(g["loc"]["parts"][0][1] for g in lo_side) + rng.choice([0, 1, c - 1]), "i"))
+            elif mode == "own-gene-inside" and len(lo_side) >= 2:
+                a, b = lo_side[0]["loc"]["parts"][0], lo_side[-1]["loc"]["parts"][0]
+                if a[1] + 1 < b[0]:
+                    genes.append(gene(a[1], "i", 1, ln=max(1, min(gl, b[0] - a[1] - 1))))
+            else:
+                genes.append(gene(length // 2 - 3 * c, "i"))
+            circ = True
+            cs = rng.choice([c, 2 * c])
+            rules = [{"name": "sup", "cutoff": cs, "nbhd": nb, "cond": A("s"), "sup": [], "ext": None},
+                     {"name": "inf", "cutoff": rng.choice([c, cs]), "nbhd": rng.choice([nb, 0]), "cond": A("i"), "sup": ["sup"], "ext": None}]
+            if rng.random() < 0.3:
+                rules.reverse()
         else:
             # EXTENDERS: anchors in the middle, extendable genes at <= cutoff, == cutoff, cutoff + 1 on both sides
             lo = 3 * c + 3 * gl
@@ -374,7 +446,7 @@ class C03(Property):
         rng.shuffle(out)
         for n, g in enumerate(out):
             g["n"] = n
-        return {"len": max(length, 1), "circ": circ, "genes": out, "rules": rules}
+        return {"len": max(length, 1), "circ": circ, "genes": out, "rules": rules, "text": rng.random() < 0.3}
 
     def cases(self, rng: random.Random, tier: str, deep: bool) -> Iterator[Dict[str, Any]]:
         n_random = 50000 if deep else 6000
@@ -470,16 +542,66 @@ class C03(Property):
 
         def mkprof(p: str) -> Any:
             return DynamicProfile(p, "d", lambda record, hmmer: {k: list(v) for k, v in table[p].items()})
-        rules = []
-        for r in case["rules"]:
-            cond = common.build_cond(r["cond"])
-            top = cond if type(cond) is rp.Conditions else rp.Conditions(False, [cond])
-            ext = common.build_cond(r["ext"]) if r["ext"] is not None else None
-            rules.append(rp.DetectionRule(r["name"], "cat", r["cutoff"], r["nbhd"], top,
-                                          superiors=list(r["sup"]), extenders=ext))
-        ruleset = cp.Ruleset(tuple(rules), {}, "", {"cat"}, "tool",
-                             dynamic_profiles={p: mkprof(p) for p in profs}, equivalence_groups=[])
+        ruleset = None
+        self.last_via_text = False
+        if case.get("text"):
+            ruleset = self.ruleset_from_text(case, profs, {p: mkprof(p) for p in profs})
+            self.last_via_text = ruleset is not None
+        if ruleset is None:
+            rules = []
+            for r in case["rules"]:
+                cond = common.build_cond(r["cond"])
+                top = cond if type(cond) is rp.Conditions else rp.Conditions(False, [cond])
+                ext = common.build_cond(r["ext"]) if r["ext"] is not None else None
+                rules.append(rp.DetectionRule(r["name"], "cat", r["cutoff"], r["nbhd"], top,
+                                              superiors=list(r["sup"]), extenders=ext))
+            ruleset = cp.Ruleset(tuple(rules), {}, "", {"cat"}, "tool",
+                                 dynamic_profiles={p: mkprof(p) for p in profs}, equivalence_groups=[])
         return rec, ruleset
+
+    @staticmethod
+    def ruleset_from_text(case: Dict[str, Any], profs: List[str], dynamic: Dict[str, Any]) -> Any:
+        """the same ruleset through the real rule text parser and the real distance multipliers
+           (`RULE … CUTOFF kb NEIGHBOURHOOD kb CONDITIONS … [EXTENDERS …]`, `Ruleset(multipliers=…)`), when the case
+           can be written that way: superiors defined earlier and transitively closed, distances a whole
+           number of (scaled) kilobases; None otherwise"""
+        import math
+        from antismash.common.hmm_rule_parser import rule_parser as rp, cluster_prediction as cp
+        from antismash.common.hmm_rule_parser.structures import Multipliers
+        rules = case["rules"]
+        seen: Dict[str, List[str]] = {}
+        for r in rules:
+            closed = set(r["sup"])
+            for s_name in r["sup"]:
+                if s_name not in seen:
+                    return None
+                closed.update(seen[s_name])
+            if closed != set(r["sup"]) or len(set(r["sup"])) != len(r["sup"]):
+                return None
+            seen[r["name"]] = list(r["sup"])
+
+        def scale(values: List[int]) -> Optional[Any]:
+            nonzero = [v for v in values if v]
+            unit = math.gcd(*nonzero) if nonzero else 1
+            mult = unit / 1000
+            if any(int((v // unit) * 1000 * mult) != v for v in values):
+                return None
+            return unit, mult
+        cs, ns = scale([r["cutoff"] for r in rules]), scale([r["nbhd"] for r in rules])
+        if cs is None or ns is None:
+            return None
+        lines = []
+        for r in rules:
+            sup = f" SUPERIORS {', '.join(r['sup'])}" if r["sup"] else ""
+            ext = f" EXTENDERS {common.cond_str(r['ext'])}" if r["ext"] is not None else ""
+            lines.append(f"RULE {r['name']} CATEGORY cat{sup} CUTOFF {r['cutoff'] // cs[0]} NEIGHBOURHOOD {r['nbhd'] // ns[0]} "
+                         f"CONDITIONS {common.cond_str(r['cond'])}{ext}")
+        try:
+            parsed = rp.Parser("\n".join(lines), set(profs), {"cat"}).rules
+        except Exception:  # pylint: disable=broad-except
+            return None
+        return cp.Ruleset(tuple(parsed), {}, "", {"cat"}, "tool", multipliers=Multipliers(cutoff=cs[1], neighbourhood=ns[1]),
+                          dynamic_profiles=dynamic, equivalence_groups=[])
 
     def run_impl(self, case: Dict[str, Any]) -> Dict[str, Any]:
         from antismash.common.hmm_rule_parser import cluster_prediction as cp
@@ -503,7 +625,7 @@ class C03(Property):
             clusters.append({"rule": pc.product, "core": unstranded(common.location_json(pc.core_location)),
                              "loc": unstranded(common.location_json(pc.location)), "defs": sorted(defs)})
         clusters.sort(key=lambda c: (c["rule"], repr(c["core"]), repr(c["loc"])))
-        return {"clusters": clusters, "order": order, "lookup_dev": len(LOOKUP_DEVIATIONS)}
+        return {"clusters": clusters, "order": order, "lookup_dev": len(LOOKUP_DEVIATIONS), "via_text": self.last_via_text}
 
     def driver_line(self, case: Dict[str, Any], obs: Dict[str, Any]) -> Optional[Dict[str, Any]]:
         if "order" not in obs:
@@ -525,6 +647,8 @@ class C03(Property):
                 "plain" if scope["plain"] else "superiors/extenders"]
         if obs.get("lookup_dev"):
             tags.append("lookup-deviates")
+        if obs.get("via_text"):
+            tags.append("rules-via-text+multipliers")
         if "err" in obs:
             kind = obs["err"].split(":")[0]
             corr = model.get("err") == kind
@@ -547,20 +671,6 @@ class C03(Property):
             known = spec["model_known"]
         if not spec_ok:
             detail = f"spec: {spec['why']}; implementation {obs['clusters']}" + ("; " + detail if detail else "")
-        # output-level reading of "dropped when the cluster of one of its SUPERIORS covers its core genes":
-        # on a linear record no reported protocluster may have its core inside the (final, extended) core of a
-        # reported protocluster of one of the superiors its rule object lists (the harness builds DetectionRule
-        # objects directly, so the list is used as given)
-        if spec_ok and wf and not case["circ"]:
-            sups: Dict[str, set] = {r["name"]: set(r["sup"]) for r in case["rules"]}
-            def inside(inner: Dict[str, Any], outer: Dict[str, Any]) -> bool:
-                return all(any(o[0] <= i[0] and i[1] <= o[1] for o in outer["parts"]) for i in inner["parts"])
-            for low in obs["clusters"]:
-                for high in obs["clusters"]:
-                    if high["rule"] in sups.get(low["rule"], ()) and inside(low["core"], high["core"]):
-                        spec_ok = False
-                        detail = (f"spec: protocluster of {low['rule']} with core {low['core']} is reported although the core "
-                                  f"{high['core']} of its superior {high['rule']} covers it; " + detail)
         n = len(obs["clusters"])
         tags.append(f"clusters{min(n, 5)}")
         tags.append(f"maxchain{min(spec['maxgroup'], 4)}")
